@@ -393,3 +393,47 @@ Definition run (cs : list case) : list (N * N * N) :=
     (fun c => obs_eqb (model (c_in c)) (c_obs c))
     (fun c => negb (wf (c_in c)) || spec_ok (c_in c) (c_obs c))
     (fun _ => 0%N) cs.
+
+(* ---------- the property as propositions (used by props/C06_Property.v) ---------- *)
+Definition Valid_at (t : Z) (c : cert) : Prop := nb c <= t <= na c.
+
+(* the policy lists a tsa store *)
+Definition Lists_tsa (stores : list string) : Prop :=
+  exists name, In ("tsa:" ++ name)%string stores.
+
+(* some certificate of the signing chain is past notAfter at the moment of verification *)
+Definition Expired_now (i : input) : Prop := exists c, In c (i_chain i) /\ na c < i_now i.
+
+(* timestamp verification applies *)
+Definition Applies (i : input) : Prop :=
+  Lists_tsa (i_stores i) /\ (i_opt i = OptAfterCertExpiry -> Expired_now i).
+
+(* the timestamp range [lo, hi] lies inside the validity of c *)
+Definition Inside (lo hi : Z) (c : cert) : Prop := nb c <= lo /\ hi <= na c.
+
+(* the envelope carries a countersignature over its signature value, issued by
+   an unrevoked TSA chaining to the policy's tsa stores, whose range lies
+   inside every certificate's validity *)
+Definition Token_ok (i : input) : Prop :=
+  let k := i_tok i in
+  k_present k = true /\ k_parses k = true /\ k_info k = true /\ k_imprint k = true /\
+  (forall name, In ("tsa:" ++ name)%string (i_stores i) -> lookup_db name (i_tsadb i) <> SErr) /\
+  (exists name, In ("tsa:" ++ name)%string (i_stores i) /\ lookup_db name (i_tsadb i) = SCerts) /\
+  k_verify k = true /\ k_rules k = true /\
+  Forall (Inside (k_gen k - k_acc k) (k_gen k + k_acc k)) (i_chain i) /\
+  exists rs, k_rev k = VRes rs /\ Forall (fun r => r = ROK \/ r = RNonRevokable) rs.
+
+(* functional updates used to state what a result does NOT depend on *)
+Definition with_opt (i : input) (o : tsopt) : input :=
+  mk_input (i_now i) (i_scheme i) (i_sigtime i) (i_expiry i) (i_chain i) (i_stores i) o
+           (i_tsadb i) (i_tok i) (i_aexp i) (i_ats i).
+Definition with_sigtime (i : input) (t : Z) : input :=
+  mk_input (i_now i) (i_scheme i) t (i_expiry i) (i_chain i) (i_stores i) (i_opt i)
+           (i_tsadb i) (i_tok i) (i_aexp i) (i_ats i).
+Definition with_now (i : input) (t : Z) : input :=
+  mk_input t (i_scheme i) (i_sigtime i) (i_expiry i) (i_chain i) (i_stores i) (i_opt i)
+           (i_tsadb i) (i_tok i) (i_aexp i) (i_ats i).
+Definition with_policy (i : input) (stores : list string) (o : tsopt)
+           (db : list (string * sres)) (k : token) : input :=
+  mk_input (i_now i) (i_scheme i) (i_sigtime i) (i_expiry i) (i_chain i) stores o
+           db k (i_aexp i) (i_ats i).
